@@ -250,6 +250,12 @@ func vBuildTLS(c vCase, p *vPKI, d Dialable) (*ConnectionTransportTLS, *tls.Conf
 		conn = NewTLSConnectionWithDialable(remote, p.caPEM[c.get("roots")], nil, h, lf, nil, vQuietOutput{}, 1<<20, opts, d)
 	case "pembad":
 		conn = NewTLSConnection(remote, []byte("-----BEGIN CERTIFICATE-----\nnot base64 at all\n-----END CERTIFICATE-----\n"), nil, h, lf, nil, vQuietOutput{}, 1<<20, opts)
+	case "pemempty":
+		conn = NewTLSConnection(remote, []byte(""), nil, h, lf, nil, vQuietOutput{}, 1<<20, opts)
+	case "pemblank":
+		conn = NewTLSConnection(remote, []byte(" \n\n"), nil, h, lf, nil, vQuietOutput{}, 1<<20, opts)
+	case "pemtext":
+		conn = NewTLSConnectionWithDialable(remote, []byte("# no certificates configured\n"), nil, h, lf, nil, vQuietOutput{}, 1<<20, opts, d)
 	case "config":
 		given = &tls.Config{InsecureSkipVerify: c.get("skip") == "1"}
 		if r := c.get("roots"); r != "" && r != "none" {
